@@ -33,7 +33,7 @@ class C15(Prop):
     imports = "From Tola Require Import Py.Base Model.CacheFS Corr.CacheFS."
     show_fn = "show"
     design_ref = "6/C15"
-    required_theorems = []
+    required_theorems = ['C15_safety_at_completion', 'C15_visible_files_complete', 'C15_check_rejects_stale', 'C15_check_rejects_missing', 'C15_indexing_installs_both', 'C15_legacy_crash_refuted', 'C15_legacy_race_refuted', 'C15_atomic_race_safe']
 
     def rule(self):
         return (
